@@ -2,7 +2,7 @@
 from __future__ import annotations
 
 import ast
-from typing import List, Optional, Set
+from typing import List, Optional, Set, Tuple
 
 from .. import terms as T
 from ..dsf import analyse_class
@@ -21,7 +21,8 @@ EXPLANATION = (
     'running time (generation and skip) advance it by exactly count x Ts (equal term normal forms), and nothing '
     'else writes it. C14.c: (DSF) the per-ray phases always match the configured shape and number of rays after '
     'any sequence of shape changes. Not decided: sample values, |h| <= sqrt(L), zero-Doppler invariance.'
-    ' General rules also applied here (see DESIGN 10.5): validate-before-commit (no `raise` reachable after the object was already changed in a public mutator); escaping attributes are only rebound, never written in place. C14.g: block loops with a floor trip count test/handle the remainder.')
+    ' General rules also applied here (see DESIGN 10.5): validate-before-commit (no `raise` reachable after the object was already changed in a public mutator); escaping attributes are only rebound, never written in place. C14.g: block loops with a floor trip count test/handle the remainder.'
+    ' C14.j: the samples normalise to the Jakes sum of sinusoids at the generated time vector (whole-array, in-place and block-wise spellings); the time vector is not rewritten in between.')
 
 INT_FUNCS = {'int', 'len', 'round'}
 
@@ -201,63 +202,124 @@ def check(ctx: Ctx) -> None:
 
 
 def _check_jakes_formula(ctx: Ctx) -> None:
-    """C14.j: the samples are the Jakes sum of sinusoids evaluated at the generated time vector, as an identity of terms."""
+    """C14.j: the samples are the Jakes sum of sinusoids evaluated at the generated time vector, as an identity of terms.
+
+    Three outcomes per function: every expression that becomes (a block of) the samples normalises to the model -> holds; the time
+    vector is rewritten by arithmetic, or an expression normalises to a DIFFERENT closed formula while every statement that touches the
+    names involved is one the sequential evaluator models -> violation; anything else -> cannot tell."""
+    import copy
     M = ctx.model
     ctx.rule('C14.j', 'the generated samples are sqrt(1/L) * sum_l exp(1j (2 pi Fd cos(phi_l) t + psi_l)) with t exactly the generated time '
-                      'vector (identity of normal forms); the time vector is not rewritten between its generation and the sum', floor=2)
+                      'vector (identity of normal forms; whole-array, in-place and block-wise spellings alike); the time vector is not '
+                      'rewritten between its generation and the sum', floor=2)
     SPEC = '(1 / L) ** (1 / 2) * sum(exp(1j * (2 * pi * Fd * cos(phi) * t + psi)), 0)'
     alias = {'self._Fd': T.Term.sym('self.Fd'), 'self._L': T.Term.sym('self.L'), 'self._Ts': T.Term.sym('self.Ts')}
+    WIDE = {'complex', 'float', 'np.complex128', 'np.float64', 'np.complex_', 'np.float_', 'numpy.complex128', 'numpy.float64'}
     for q, syms, tsrc in (
             ('JakesSampleGenerator.generate_more_samples',
              {'L': 'self.L', 'Fd': 'self.Fd', 'phi': 'self._phi_l', 'psi': 'self._psi_l'}, 'self._generate_time_samples'),
             ('generate_jakes_samples', {'L': 'L', 'Fd': 'Fd', 'phi': 'phi_l', 'psi': 'psi_l'}, None)):
         fn = M.func(FG, q)
         ctx.instance('C14.j', q)
-        # the expression that becomes the samples: value stored to self._samples, or the 2nd element of the returned tuple
-        outs = [n.value for n in walk_no_nested(fn.node) if isinstance(n, ast.Assign) and any(is_self_attr(t_, 'self') == '_samples' for t_ in n.targets)]
-        outs += [n.value.elts[1] for n in walk_no_nested(fn.node) if isinstance(n, ast.Return) and isinstance(n.value, ast.Tuple) and len(n.value.elts) == 2]
-        if len(outs) != 1:
-            ctx.error('C14.j: %s no longer produces its samples in one store / one returned pair (cannot tell)' % q)
+        body = [st for st in fn.node.body if not (isinstance(st, ast.Expr) and isinstance(st.value, ast.Constant))]
         # the time vector: the local bound to the time-sample call (class) or to the arange expression (function)
         tnames = [n.targets[0].id for n in walk_no_nested(fn.node) if isinstance(n, ast.Assign) and len(n.targets) == 1
                   and isinstance(n.targets[0], ast.Name) and any(
                       isinstance(c, ast.Call) and (norm(c.func) == tsrc if tsrc else norm(c.func) in ('np.arange', 'np.linspace'))
                       for c in ast.walk(n.value))]
-        rewrites = []
-        for tn in set(tnames):
-            binds = [n for n in walk_no_nested(fn.node) if isinstance(n, (ast.Assign, ast.AugAssign)) and any(
-                isinstance(x, ast.Name) and x.id == tn for t_ in (n.targets if isinstance(n, ast.Assign) else [n.target]) for x in ast.walk(t_))]
-            binds.sort(key=lambda b_: (b_.lineno, b_.col_offset))
-            for b in binds[1:] if isinstance(binds[0], ast.Assign) else binds:
-                arith = isinstance(b, ast.AugAssign) or any(
-                    isinstance(x, ast.BinOp) or (isinstance(x, ast.Call) and norm(x.func).split('.')[-1] in ('mod', 'fmod', 'remainder', 'round', 'around', 'floor', 'clip', 'minimum', 'maximum', 'unwrap'))
-                    for x in ast.walk(b.value))
-                rewrites.append((b, arith))
-        if any(a for _, a in rewrites):
-            b = [b for b, a in rewrites if a][0]
+        if tsrc is None:
+            # function form: the time vector is the LAST of the chain (sample_index = arange(..); t = current_time + sample_index * Ts)
+            chain = set(tnames)
+            for n in sorted((n for n in walk_no_nested(fn.node) if isinstance(n, ast.Assign)), key=lambda n_: n_.lineno):
+                if len(n.targets) == 1 and isinstance(n.targets[0], ast.Name) and any(
+                        isinstance(x, ast.Name) and x.id in chain for x in ast.walk(n.value)) and not any(
+                        isinstance(c, ast.Call) and norm(c.func).split('.')[-1] in ('exp', 'sum') for c in ast.walk(n.value)):
+                    chain.add(n.targets[0].id)
+                    tnames.append(n.targets[0].id)
+            tnames = tnames[-1:]
+        if len(set(tnames)) != 1:
+            ctx.error('C14.j: %s: the time vector is bound to %s (one name expected): cannot tell' % (q, sorted(set(tnames))))
+        tn = tnames[0]
+        binds = sorted((n for n in walk_no_nested(fn.node) if isinstance(n, (ast.Assign, ast.AugAssign)) and any(
+            isinstance(t_, ast.Name) and t_.id == tn for t_ in (n.targets if isinstance(n, ast.Assign) else [n.target]))),
+            key=lambda b_: (b_.lineno, b_.col_offset))
+        rewrites = [b for b in binds[1:] if isinstance(b, ast.AugAssign) or any(
+            isinstance(x, ast.BinOp) or (isinstance(x, ast.Call) and norm(x.func).split('.')[-1] in (
+                'mod', 'fmod', 'remainder', 'round', 'around', 'floor', 'clip', 'minimum', 'maximum', 'unwrap')) for x in ast.walk(b.value))]
+        if rewrites:
+            b = rewrites[0]
             ctx.obligation('C14.j', q, False, {'time_vector_rewritten_by': norm(b)[:90]})
             ctx.violation('C14.j', q, 'the generated time vector is rewritten by `%s` before it enters the sum of sinusoids: the rays have '
                           'different Doppler shifts Fd cos(phi_l), so no common wrap / rounding of t leaves every ray\'s phase unchanged - sample k '
                           'is no longer the model at k x Ts' % norm(b)[:70], fn.path, b.lineno, operand='time-rewritten')
             continue
+        if len(binds) != 1:
+            ctx.error('C14.j: %s rebinds the time vector `%s` in a way that is not understood: cannot tell' % (q, tn))
+
+        class Canon(ast.NodeTransformer):
+            """slices of the time vector stand for the time vector (blocks); widening dtype keywords are dropped"""
+            def visit_Subscript(self, n):
+                self.generic_visit(n)
+                if isinstance(n.value, ast.Name) and n.value.id == tn and isinstance(n.ctx, ast.Load):
+                    return ast.copy_location(ast.Name(id=tn, ctx=ast.Load()), n)
+                return n
+
+            def visit_Call(self, n):
+                self.generic_visit(n)
+                n.keywords = [k for k in n.keywords if not (k.arg == 'dtype' and norm(k.value) in WIDE)]
+                if norm(n.func).split('.')[-1] in ('sum', 'mean') and len(n.args) == 1 and len(n.keywords) == 1 and n.keywords[0].arg == 'axis':
+                    n.args.append(n.keywords[0].value)
+                    n.keywords = []
+                return n
+        cbody = [ast.fix_missing_locations(Canon().visit(copy.deepcopy(st))) for st in body]
+        # sequential evaluation; the samples are a whole-array expression, or a pre-allocated array filled block by block in a loop
+        out_name = None
+        for st in cbody:
+            if isinstance(st, ast.Assign) and any(is_self_attr(t_, 'self') == '_samples' for t_ in st.targets):
+                out_name = st.value
+            if isinstance(st, ast.Return) and isinstance(st.value, ast.Tuple) and len(st.value.elts) == 2:
+                out_name = st.value.elts[1]
+        if out_name is None:
+            ctx.error('C14.j: %s no longer produces its samples in one store / one returned pair (cannot tell)' % q)
+        env = T.Env(M, fn)
+        got: List[Tuple[str, T.Term, int]] = []
+        unmodelled: List[str] = []
         try:
-            env = T.Env(M, fn)
-            env.vars.update(T.local_terms(M, fn))
-            got = T.substitute(T.from_ast(outs[0], env), alias)
-            tt = None
-            for tn in tnames:
-                if tn in env.vars:
-                    tt = T.substitute(env.vars[tn], alias)
+            for st in cbody:
+                if isinstance(st, ast.For) and isinstance(out_name, ast.Name):
+                    le = T.block_env(M, fn, st.body, env.clone())
+                    for x in st.body:
+                        if isinstance(x, ast.Assign) and len(x.targets) == 1 and isinstance(x.targets[0], ast.Subscript) \
+                                and isinstance(x.targets[0].value, ast.Name) and x.targets[0].value.id == out_name.id:
+                            got.append(('block', T.substitute(T.from_ast(x.value, le), alias), x.lineno))
+                        elif not isinstance(x, (ast.Assign, ast.AugAssign, ast.AnnAssign)) or not all(
+                                isinstance(t_, ast.Name) for t_ in (x.targets if isinstance(x, ast.Assign) else [x.target])):
+                            unmodelled.append(norm(x)[:50])
+                    continue
+                if isinstance(st, (ast.If, ast.While, ast.With, ast.Try, ast.For)):
+                    touched = {x.id for x in ast.walk(st) if isinstance(x, ast.Name) and isinstance(x.ctx, ast.Store)}
+                    if touched & ({tn} | ({out_name.id} if isinstance(out_name, ast.Name) else set())):
+                        unmodelled.append(norm(st)[:50])
+                T.block_env(M, fn, [st], env)
+            if not got:
+                got.append(('whole', T.substitute(T.from_ast(out_name, env), alias), out_name.lineno))
+            elif isinstance(out_name, ast.Name) and out_name.id in env.vars and not any(
+                    a[0] == 'call' and str(a[1]).split('.')[-1] in ('empty', 'zeros', 'empty_like', 'zeros_like') for a in T.atoms_of(env.vars[out_name.id])):
+                unmodelled.append('samples array `%s` is not a fresh allocation' % out_name.id)
+            tt = T.substitute(env.vars[tn], alias) if tn in env.vars else None
             if tt is None:
-                raise T.Unknown('the time vector is not a single-assignment formula')
+                raise T.Unknown('the time vector is not a formula')
             want = T.parse_spec(SPEC, None, t=tt, **{k: T.Term.sym(v) for k, v in syms.items()})
         except T.Unknown as e:
             ctx.error('C14.j: the samples of %s are not a closed formula of the time vector (%s): cannot tell' % (q, e))
-        ok = got == want
-        ctx.obligation('C14.j', q, ok, {'samples': got.pretty()[:200], 'specification': want.pretty()[:200]})
-        if not ok:
-            ctx.violation('C14.j', q, 'the samples are `%s`, not the Jakes model `%s`' % (got.pretty()[:120], want.pretty()[:120]),
-                          fn.path, outs[0].lineno, operand='formula')
+        bad = [(k, g, ln) for k, g, ln in got if g != want]
+        ctx.obligation('C14.j', q, not bad, {'samples': [(k, g.pretty()[:160]) for k, g, _ in got], 'specification': want.pretty()[:160]})
+        if bad and unmodelled:
+            ctx.error('C14.j: the samples of %s normalise to `%s`, not to the model, but statements the evaluator does not model touch the '
+                      'names involved (%s): cannot tell' % (q, bad[0][1].pretty()[:80], unmodelled[:2]))
+        for k, g, ln in bad[:1]:
+            ctx.violation('C14.j', q, 'the samples are `%s`, not the Jakes model `%s`' % (g.pretty()[:120], want.pretty()[:120]),
+                          fn.path, ln, operand='formula')
 
 
 def synthetic():
@@ -272,6 +334,16 @@ def synthetic():
 
 
 MUTANTS = [
+    Mutant('time-wrapped-to-one-doppler-period', FG, 'JakesSampleGenerator.generate_more_samples',
+           [('regex', r'(\n    t = self\._generate_time_samples\(num_samples\))', r'\1\n    if self.Fd > 0:\n        t = np.mod(t, 1.0 / self.Fd)')],
+           r'C14\.j:JakesSampleGenerator\.generate_more_samples:time-rewritten'),
+    Mutant('sine-of-the-arrival-angle', FG, 'JakesSampleGenerator.generate_more_samples',
+           [('replace', 'np.cos(self._phi_l)', 'np.sin(self._phi_l)')], r'C14\.j:JakesSampleGenerator\.generate_more_samples:formula'),
+    Mutant('function-form-drops-the-2pi', FG, 'generate_jakes_samples',
+           [('replace', '2 * np.pi * Fd', 'np.pi * Fd')], r'C14\.j:generate_jakes_samples:formula'),
+    Mutant('benign-jakes-exponent-reassociated', FG, 'JakesSampleGenerator.generate_more_samples',
+           [('replace', '2 * np.pi * self.Fd * np.cos(self._phi_l) * t + self._psi_l', 'self._psi_l + t * np.cos(self._phi_l) * (2 * np.pi * self.Fd)')],
+           None, benign=True),
     Mutant('static-channel-shortcut-by-default-tolerance', FG, 'JakesSampleGenerator.generate_more_samples',
            [('regex', r'(\n    t = self\._generate_time_samples\(num_samples\))', r'\n    if np.isclose(self._Fd * self._Ts, 0.0):\n        self._samples = np.zeros(1)\n        return\1')],
            r'C14\.h:JakesSampleGenerator\.generate_more_samples:tolerance-path'),
